@@ -501,6 +501,10 @@ func (gen *Generator) GenerateLet(name string, args []Sexp) error {
 	gen.AddInstruction(AddScopeInstr{Name: "runtime " + name})
 	gen.scopes++
 
+	// the binding initializers are never in tail position, even
+	// when the let form itself is.
+	oldtail := gen.Tail
+	gen.Tail = false
 	if name == "letseq" {
 		for i, rs := range rstatements {
 			err := gen.Generate(rs)
@@ -520,6 +524,7 @@ func (gen *Generator) GenerateLet(name string, args []Sexp) error {
 			gen.AddInstruction(PopStackPutEnvInstr{lstatements[i]})
 		}
 	}
+	gen.Tail = oldtail
 	err := gen.GenerateBegin(args[1:])
 	if err != nil {
 		return err
